@@ -1,4 +1,5 @@
 import Zc.Proofs.Wire.Message
+import Zc.Props.C02
 /-! # C01 — wire codec round trip
 
 Every question and record handed to the message builder is recovered unchanged — name spelling,
@@ -9,8 +10,8 @@ compression and packet splitting fall; labels longer than 63 bytes are rejected 
 `NamePartTooLongException`.
 
 The encoder model `Wire.Encode.packets` is byte-exact against `DNSOutgoing.packets()` on every run
-(correspondence harness).  The statement for the library's own decoder follows from C02
-(`C02_agrees_strict`).
+(correspondence harness).  The statement for the library's own decoder, `C01_roundtrip_lib`, composes
+the strict round trip with C02 (`C02_agrees_strict`).
 
 All seven record kinds (A/AAAA, PTR/CNAME, TXT, SRV, HINFO, NSEC) are inside `WFMsg`. -/
 namespace Zc
@@ -73,6 +74,97 @@ theorem C01_flush_bit_multicast_only (c : Nat) (u : Bool) (hc : c < 32768) :
   rw [classField_eq _ _ _ hc, classField_eq _ _ _ hc]
   cases u <;> simp [wireClass]
 
+/-! ### the library's own decoder (through C02) -/
+
+/-- every name handed to the builder: question names, owner names, names inside rdata -/
+def erdataNames : ERData → List WName
+  | .ptr t => [t]
+  | .srv _ _ _ t => [t]
+  | .nsec n _ => [n]
+  | _ => []
+
+def msgNamesE (m : Msg) : List WName :=
+  m.questions.map (·.name)
+    ++ (m.answers.map (·.1) ++ m.authorities ++ m.additionals).flatMap (fun r => r.name :: erdataNames r.rdata)
+
+/-- names are text: each label is what `str.encode('utf-8')` produced, so decoding it and encoding it
+again yields the same at most 63 bytes -/
+def TextLabels (m : Msg) : Prop := ∀ n ∈ msgNamesE m, ∀ l ∈ n, Utf8.reencodedLen l ≤ 63
+
+instance (m : Msg) : Decidable (TextLabels m) := by unfold TextLabels; infer_instance
+
+theorem onWire_not_other (rd : ERData) : (match rd.onWire with | .other _ => false | _ => true) = true := by
+  cases rd <;> rfl
+
+theorem rdataNames_onWire (rd : ERData) : DecodeSpec.rdataNames rd.onWire = erdataNames rd := by
+  cases rd <;> rfl
+
+/-- **Round trip through the library's own decoder.**  Every emitted datagram is parsed by the model of
+`DNSIncoming` (C02) into a valid object that carries exactly what the strict decoder reads — so the
+round trip of `C01_roundtrip_strict` holds for the library's decoder too. -/
+theorem C01_roundtrip_lib (m : Msg) (hwf : WFMsg m) (hfit : FitAll m) (htext : TextLabels m) (pks : List Bytes)
+    (h : packets m = .ok pks) :
+    ∃ msgs : List WMsg, pks.map Strict.decode = msgs.map some ∧
+      msgs.flatMap (·.questions) = onWireQuestions m ∧
+      msgs.flatMap (·.answers) = onWireAnswers m ∧
+      msgs.flatMap (·.authorities) = onWireAuthorities m ∧
+      msgs.flatMap (·.additionals) = onWireAdditionals m ∧
+      ∀ p ∈ pks, ∃ w q, Strict.decode p = some w ∧ (DecodeLib.parse p).out = .ok q ∧ DecodeSpec.agrees q w = true := by
+  obtain ⟨msgs, e, s1, s2, s3, s4⟩ := C01_roundtrip_strict m hwf hfit pks h
+  refine ⟨msgs, e, s1, s2, s3, s4, ?_⟩
+  intro p hp
+  have hm : Strict.decode p ∈ pks.map Strict.decode := List.mem_map_of_mem hp
+  rw [e] at hm
+  simp only [List.mem_map] at hm
+  obtain ⟨w, hw, hw2⟩ := hm
+  -- every entry of `w` is the wire form of an entry of `m`
+  have qsub : ∀ q ∈ w.questions, ∃ x ∈ m.questions, q = x.onWire m.multicast := by
+    intro q hq
+    have : q ∈ msgs.flatMap (·.questions) := List.mem_flatMap.mpr ⟨w, hw, hq⟩
+    rw [s1] at this
+    simp only [onWireQuestions, List.mem_map] at this
+    obtain ⟨x, hx, rfl⟩ := this; exact ⟨x, hx, rfl⟩
+  have rsub : ∀ r ∈ w.answers ++ w.authorities ++ w.additionals,
+      ∃ x now, x ∈ m.answers.map (·.1) ++ m.authorities ++ m.additionals ∧ r = x.onWire m.multicast now := by
+    intro r hr
+    simp only [List.mem_append] at hr
+    rcases hr with (hr | hr) | hr
+    · have : r ∈ msgs.flatMap (·.answers) := List.mem_flatMap.mpr ⟨w, hw, hr⟩
+      rw [s2] at this
+      simp only [onWireAnswers, List.mem_map] at this
+      obtain ⟨x, hx, rfl⟩ := this
+      exact ⟨x.1, x.2, by simp only [List.mem_append, List.mem_map]; exact Or.inl (Or.inl ⟨x, hx, rfl⟩), rfl⟩
+    · have : r ∈ msgs.flatMap (·.authorities) := List.mem_flatMap.mpr ⟨w, hw, hr⟩
+      rw [s3] at this
+      simp only [onWireAuthorities, List.mem_map] at this
+      obtain ⟨x, hx, rfl⟩ := this
+      exact ⟨x, 0, by simp only [List.mem_append]; exact Or.inl (Or.inr hx), rfl⟩
+    · have : r ∈ msgs.flatMap (·.additionals) := List.mem_flatMap.mpr ⟨w, hw, hr⟩
+      rw [s4] at this
+      simp only [onWireAdditionals, List.mem_map] at this
+      obtain ⟨x, hx, rfl⟩ := this
+      exact ⟨x, 0, by simp only [List.mem_append]; exact Or.inr hx, rfl⟩
+  have hsup : Strict.supportedOnly w = true := by
+    simp only [Strict.supportedOnly, List.all_eq_true]
+    intro r hr
+    obtain ⟨x, now, _, rfl⟩ := rsub r hr
+    exact onWire_not_other x.rdata
+  have hre : DecodeSpec.reencodable w = true := by
+    simp only [DecodeSpec.reencodable, DecodeSpec.msgNames, List.all_eq_true, List.mem_append, List.mem_map, List.mem_flatMap,
+      decide_eq_true_eq]
+    intro n hn l hl
+    apply htext n _ l hl
+    simp only [msgNamesE, List.mem_append, List.mem_map, List.mem_flatMap]
+    rcases hn with ⟨q, hq, rfl⟩ | ⟨r, hr, hnr⟩
+    · obtain ⟨x, hx, rfl⟩ := qsub q hq
+      exact Or.inl ⟨x, hx, rfl⟩
+    · obtain ⟨x, now, hx, rfl⟩ := rsub r (by simp only [List.mem_append]; exact hr)
+      right
+      refine ⟨x, by simp only [List.mem_append, List.mem_map] at hx ⊢; exact hx, ?_⟩
+      simpa [ERecord.onWire, rdataNames_onWire] using hnr
+  obtain ⟨q, hq1, hq2⟩ := C02_agrees_strict p w hw2.symm hsup hre
+  exact ⟨w, q, hw2.symm, hq1, hq2⟩
+
 /-! ### non-vacuity: a concrete message with compression (PTR + SRV + A sharing suffixes) meets the
 hypotheses, and the theorem's conclusion can be observed on it -/
 def exType : WName := [[95, 104], [95, 116], [108]]          -- _h._t.l
@@ -88,6 +180,7 @@ def exMsg : Msg :=
 
 example : WFMsg exMsg := ⟨by decide, by decide, by decide, by decide⟩
 example : FitAll exMsg := ⟨by decide, by decide, by decide, by decide⟩
+example : TextLabels exMsg := by decide
 /-- the datagram really uses compression pointers: pointers for every repeated suffix -/
 example : (packets exMsg).toOption.map (fun pks => pks.map List.length) = some [102] := by decide
 
